@@ -516,6 +516,30 @@ func (s *segment) findEntry(offset int64) (*entry, error) {
 	return entry, err
 }
 
+// findLastEntryIndex returns the position in the index of the last entry whose
+// offset is less than or equal to the given offset or -1 if there is no such
+// entry.
+func (s *segment) findLastEntryIndex(offset int64) (int64, error) {
+	s.RLock()
+	defer s.RUnlock()
+	var (
+		entry = &entry{}
+		n     = int(s.Index.CountEntries())
+		err   error
+	)
+	idx := sort.Search(n, func(i int) bool {
+		if e := s.Index.ReadEntryAtLogOffset(entry, int64(i)); e != nil {
+			err = e
+			return true
+		}
+		return entry.Offset > offset
+	})
+	if err != nil {
+		return 0, err
+	}
+	return int64(idx) - 1, nil
+}
+
 // findEntryByTimestamp returns the first entry whose timestamp is greater than
 // or equal to the given timestamp.
 func (s *segment) findEntryByTimestamp(timestamp int64) (*entry, error) {
@@ -618,13 +642,17 @@ type reverseSegmentScanner struct {
 
 // newReverseSegmentScanner creates a scanner that iterates from the given
 // offset backwards.
-func newReverseSegmentScanner(segment *segment, startOffset int64) *reverseSegmentScanner {
-	// Convert log offset to index entry offset
-	entryOffset := startOffset - segment.BaseOffset
+func newReverseSegmentScanner(segment *segment, startOffset int64) (*reverseSegmentScanner, error) {
+	// Convert log offset to index entry position. The segment may be sparse
+	// due to compaction, so this requires searching the index.
+	entryIdx, err := segment.findLastEntryIndex(startOffset)
+	if err != nil {
+		return nil, err
+	}
 	return &reverseSegmentScanner{
 		s:   segment,
-		ris: newReverseIndexScanner(segment.Index, entryOffset),
-	}
+		ris: newReverseIndexScanner(segment.Index, entryIdx),
+	}, nil
 }
 
 // newReverseSegmentScannerFromEnd creates a scanner that starts at the last
